@@ -352,6 +352,37 @@ pub fn run(tier: Tier, seed: u64) -> i32 {
     report.space(&format!("{} session keys; all four halves; client-encrypter<->server-decrypter and server-encrypter<->client-decrypter round trip at every explored offset", keys.len()));
     report.space("chunking: all 512 compositions (with/without empty calls) of a 10-byte stream at start offsets {0, 250..262, 1020..1030, 65530..65542 (thorough)} for all four halves, object equality (256-byte permutation + counters) with the byte-wise run; call sizes {0..6,255,256,257,1024,65535,65536,65537}");
     report.assume("depth-bounded: nothing is claimed beyond the explored stream depth or for session keys outside the alphabet");
+    // ---- a second connection on the same thread whose session key looks like the first one's (words swapped, cancelling
+    //      changes): its four streams must be those of ITS key ----
+    {
+        let base = keys[keys.len() / 2];
+        let mut n_pairs = 0u64;
+        for k2 in crate::c07_c08::colliding_keys(&base) {
+            let (mut ce1, _) = ciphers::wrath_client(&base).split();
+            let (mut se1, _) = ciphers::wrath_server(&base).split();
+            ce1.encrypt(&mut [0u8; 16]);
+            se1.encrypt(&mut [0u8; 16]);
+            let (mut ce, mut cd) = ciphers::wrath_client(&k2).split();
+            let (mut se, mut sd) = ciphers::wrath_server(&k2).split();
+            let mut c2s = wrath_stream(&k2, Dir::ClientToServer);
+            let mut s2c = wrath_stream(&k2, Dir::ServerToClient);
+            let (mut a, mut b, mut c, mut d) = ([0u8; 40], [0u8; 40], [0u8; 40], [0u8; 40]);
+            ce.encrypt(&mut a);
+            sd.decrypt(&mut b);
+            se.encrypt(&mut c);
+            cd.decrypt(&mut d);
+            let mut w1 = [0u8; 40];
+            c2s.apply(&mut w1);
+            let mut w2 = [0u8; 40];
+            s2c.apply(&mut w2);
+            n_pairs += 1;
+            if a != w1 || b != w1 || c != w2 || d != w2 {
+                viol(&report, "second-connection-on-the-thread", "keystream", &k2, json!({"first_connection_key": hex(&base)}), "a connection created after one with a look-alike session key does not produce the keystreams of ITS key".into());
+                break;
+            }
+        }
+        report.count("look_alike_key_pairs", n_pairs);
+    }
     // ---- the header entry points consume the same two keystreams: a long walk of headers through every entry point ----
     // (typed, two-step, reader whole / one byte per call, writers), alternating 4- and 5-byte server headers so that the
     // single-byte step of a large header lands on every keystream position modulo 256
